@@ -134,11 +134,18 @@ func (r *Reporter) Finish(ev *Evidence) int {
 		fmt.Printf("KNOWN-FINDING: property=%s %s [%s] (seen %d times; signature %s)\n", e.Property, e.What, e.ID, r.knownHit[s], s)
 		kf[e.ID] = r.knownHit[s]
 	}
-	// known findings that did not reproduce in this run are reported as information only
-	for s, e := range r.known {
+	// every listed known finding gets its line, reproduced in this run or not
+	var quiet []string
+	for s := range r.known {
 		if r.knownHit[s] == 0 {
-			fmt.Printf("note: known finding %s not reproduced in this run (signature %s)\n", e.ID, s)
+			quiet = append(quiet, s)
 		}
+	}
+	sort.Strings(quiet)
+	for _, s := range quiet {
+		e := r.known[s]
+		fmt.Printf("KNOWN-FINDING: property=%s %s [%s] (listed; not reproduced in this run; signature %s)\n", e.Property, e.What, e.ID, s)
+		kf[e.ID] = 0
 	}
 	ev.Coverage["known_findings_seen"] = kf
 	if len(r.inconcl) > 0 {
